@@ -132,6 +132,8 @@ def ensure(variant, repo=None, quiet=False):
     try:
         ok = os.path.join(bdir, ".verif-ok")
         if os.path.exists(ok) and os.path.exists(os.path.join(src, ".verif-ok")):
+            os.utime(ok)
+            os.utime(src)
             return Build(variant, src, bdir, thash)
         t0 = time.time()
         # snapshot (shared by all variants of this hash)
@@ -156,7 +158,11 @@ def ensure(variant, repo=None, quiet=False):
                     if time.time() - os.path.getmtime(p) > 3600:
                         _rm(p)
                 if name.startswith("build-%s-" % variant) and name != os.path.basename(bdir):
-                    _rm(p)
+                    okf = os.path.join(p, ".verif-ok")
+                    # other trees (scratch worktrees used by self-tests) may be in use right now:
+                    # drop a build only when it has not been used for a while
+                    if not os.path.exists(okf) or time.time() - os.path.getmtime(okf) > 1800:
+                        _rm(p)
         finally:
             fcntl.flock(slock, fcntl.LOCK_UN)
             slock.close()
